@@ -40,6 +40,10 @@ def to_text(case):
 
 def run():
     chk = Check("C18")
+    chk.add_model("FunctionImpl (vptr / object pointer / inline buffer: make, reset, swap, move-assign; 3 wrappers)",
+                  vlib.model_check("FunctionImpl", "FunctionImpl_3.cfg", timeout=900))
+    rf = vlib.model_check("FunctionImpl", "FunctionImpl_dev.cfg", expect_ok=False, timeout=600)
+    chk.add_model("FunctionImpl/variant swap_repairs_one (must violate)", rf, note="violated: %s" % rf["violated"])
     (binary,) = vlib.build_harness(["wrap_harness"])
     L = 4 if chk.thorough() else 3
     tdir = os.path.join(vlib.BUILD, "traces")
